@@ -190,13 +190,14 @@ type Server struct {
 	tokenID uint32
 	seq0    uint32
 
-	mu   sync.Mutex
-	conn *uacp.Conn
-	sc   *uasc.SecureChannel
-	reqs chan SrvReq
-	errs []string
-	opns int
-	rdy  chan struct{}
+	mu          sync.Mutex
+	conn        *uacp.Conn
+	sc          *uasc.SecureChannel
+	clockOffset time.Duration // the server's clock runs this much ahead of ours
+	reqs        chan SrvReq
+	errs        []string
+	opns        int
+	rdy         chan struct{}
 }
 
 type SecOpts struct {
@@ -236,6 +237,9 @@ func (s *Server) run() {
 		s.addErr("channel: " + err.Error())
 		close(s.rdy)
 		return
+	}
+	if off := s.clockOffset; off != 0 {
+		uasc.VerifChannel{S: sc}.SetClock(func() time.Time { return time.Now().Add(off) })
 	}
 	s.mu.Lock()
 	s.conn, s.sc = conn, sc
@@ -372,6 +376,7 @@ type PairOpts struct {
 	Sec        *SecOpts // client side security (server gets its own certificate)
 	SrvSec     *SecOpts
 	SrvSeq0    uint32
+	SrvClock   time.Duration // offset of the server's clock
 }
 
 func NewPair(o PairOpts) (*Pair, error) {
@@ -388,6 +393,7 @@ func NewPair(o PairOpts) (*Pair, error) {
 	if err != nil {
 		return nil, err
 	}
+	srv.clockOffset = o.SrvClock
 	plain := o.Sec == nil || o.Sec.Mode != ua.MessageSecurityModeSignAndEncrypt
 	px, err := NewProxy(srv.addr, plain)
 	if err != nil {
